@@ -100,6 +100,7 @@ class Engine:
         self.datatypes: dict[str, DatatypeInfo] = {}
         self.tuple_sorts: dict[str, TupleSort] = {}
         self.loop_specs = {}  # id(ast loop node) -> handler(engine, node, st) -> [(st, Outcome)]
+        self.memoised_fns = set()  # ids of def nodes decorated with lru_cache/cache that were auto-inlined
         self.method_models = {}  # method name -> model(engine, st, recv, args, kwargs, node)
         self.attr_models = {}  # attr name -> model(engine, st, recv, node) for Opaque receivers
         self.user_raises = ANY_EXC  # classes an opaque callee may raise
@@ -306,7 +307,15 @@ class Engine:
             except Exception:
                 node = None
             if node is not None:
-                return Fn(name, node=node, closure={})
+                decs = [ast.unparse(d).split("(")[0].split(".")[-1] for d in node.decorator_list]
+                if not decs:
+                    return Fn(name, node=node, closure={})
+                if all(d in ("lru_cache", "cache") for d in decs):
+                    # a memoised helper: same results as its body, but the call first HASHES every argument (calls.inline adds that outcome)
+                    f = Fn(name, node=node, closure={})
+                    self.memoised_fns.add(id(node))
+                    return f
+                # any other decorator replaces the function by something this engine knows nothing about: not inlined (opaque global)
         from .values import EXC_PARENT
 
         if name in EXC_PARENT:
